@@ -203,7 +203,7 @@ theorem inv_stepStart (c : Cfg) (s : St) (t : Nat) (rest : List (Nat × Option F
             subst this
             rw [ht] at hu; cases hu
             exact absurd rfl h3.2.1
-      simp only [St.setTask, hreg]
+      simp only [registerTask, St.setTask, hreg]
       cases xk with
       | coro =>
         by_cases ha : c.awaitInside = true
